@@ -1,0 +1,42 @@
+//go:build verif && (verif_all || verif_c09)
+// +build verif
+// +build verif_all verif_c09
+
+package gocql
+
+// Verification hooks (build tag `verif`): routing keys through a real *Query object. Add-only.
+
+import "github.com/gocql/gocql/internal/lru"
+
+// VerifQueryRoutingKeys creates one Query on a connection-less Session whose routing-key-info
+// cache already knows the statement (partition key = the given column types and value indexes),
+// then for every step binds the step's values to THE SAME Query object (Query.Bind, as when a
+// query object is reused) and asks it for its routing key (Query.GetRoutingKey). If explicit is
+// non-nil it is set with Query.RoutingKey before the first step. One key (or error text) per step.
+func VerifQueryRoutingKeys(types []TypeInfo, indexes []int, steps [][]interface{}, explicit []byte) (keys [][]byte, errs []string) {
+	const stmt = "SELECT verif FROM verif.rk WHERE pk = ?"
+	s := &Session{cfg: ClusterConfig{}}
+	s.routingKeyInfoCache.lru = lru.New(8)
+	entry := &inflightCachedEntry{value: &routingKeyInfo{indexes: indexes, types: types, keyspace: "verif", table: "rk"}}
+	s.routingKeyInfoCache.lru.Add(stmt, entry)
+	var q *Query
+	for i, vals := range steps {
+		if i == 0 {
+			q = s.Query(stmt, vals...)
+			if explicit != nil {
+				q.RoutingKey(explicit)
+			}
+		} else {
+			q.Bind(vals...)
+		}
+		k, err := q.GetRoutingKey()
+		if err != nil {
+			keys = append(keys, nil)
+			errs = append(errs, err.Error())
+			continue
+		}
+		keys = append(keys, append([]byte(nil), k...))
+		errs = append(errs, "")
+	}
+	return keys, errs
+}
